@@ -69,7 +69,10 @@ func (w *World) ruleMapFieldTypeRead(r *Report, rule string) {
 				return true
 			}
 			if _, bound := st.vals["__tag"]; !bound {
-				if isTagSource(sc) && fr.parent == nil {
+				// (in the reader itself or in the head of the production split off into a
+				// helper — only helpers that are not readers themselves are stepped into, so
+				// the first tag read on the path is the reader's own tag)
+				if isTagSource(sc) {
 					reg := px.reg(fr, c)
 					tt := &Term{K: TConst, C: bi(int64(t)), T: types.Typ[types.Uint8], key: fmt.Sprint(int(t))}
 					st.vals[reg+"#0"] = tt
